@@ -28,6 +28,9 @@ structure TablesOk : Prop where
   /-- the socket never goes into blocking mode, and `_read` calls `recv` once: the loop cannot hang on a read
   (the model's `recv` outcomes — data, timeout, error — are then the only ones) -/
   nonBlocking : Gen.socketMayBlock = false ∧ Gen.readRecvCalls = 1
+  /-- the classes the log formatter re-raises are not below `Exception` (KeyboardInterrupt, SystemExit): logging an
+  `Exception` never raises it again -/
+  deadlyOk : Gen.deadlyExceptions.all notExceptionClass = true
 
 instance : Decidable TablesOk :=
   decidable_of_iff
@@ -38,13 +41,13 @@ instance : Decidable TablesOk :=
      Gen.firewallCatch = "Exception" ∧ Gen.firewallHandlerCatch = "Exception" ∧ Gen.driversRunCatch = "" ∧
      malformedCaught = true ∧ regionCatch "addMsg" = some "" ∧ regionCatch "inFilter" = some "" ∧
      regionCatch "callback" = some "" ∧ encodeStrict = false ∧ Gen.preformattedLogCalls = [] ∧
-     (Gen.socketMayBlock = false ∧ Gen.readRecvCalls = 1))
-    ⟨fun ⟨a, b, c, d, e, f, x, y, g, h, i, j, k, l, m, n, o, p⟩ =>
-      ⟨a, b, c, d, e, f, by simp [passHandler, x], by simp [passHandler, y], g, h, i, j, k, l, m, n, o, p⟩,
-     fun ⟨a, b, c, d, e, f, x, y, g, h, i, j, k, l, m, n, o, p⟩ =>
+     (Gen.socketMayBlock = false ∧ Gen.readRecvCalls = 1) ∧ Gen.deadlyExceptions.all notExceptionClass = true)
+    ⟨fun ⟨a, b, c, d, e, f, x, y, g, h, i, j, k, l, m, n, o, p, q⟩ =>
+      ⟨a, b, c, d, e, f, by simp [passHandler, x], by simp [passHandler, y], g, h, i, j, k, l, m, n, o, p, q⟩,
+     fun ⟨a, b, c, d, e, f, x, y, g, h, i, j, k, l, m, n, o, p, q⟩ =>
       ⟨a, b, c, d, e, f,
        by unfold passHandler at x; split at x <;> simp_all,
-       by unfold passHandler at y; split at y <;> simp_all, g, h, i, j, k, l, m, n, o, p⟩⟩
+       by unfold passHandler at y; split at y <;> simp_all, g, h, i, j, k, l, m, n, o, p, q⟩⟩
 
 /-! ### exceptions -/
 
@@ -65,22 +68,42 @@ theorem catches_exception (n : String) : catches "Exception" (.exception n) = tr
 theorem catches_bare (e : Exc) : catches "" e = true := by
   simp [catches]
 
-theorem firewallWith_total {α : Type} (f : Outcome α) (h : Option (Outcome α))
+theorem deadly_exception (hd : Gen.deadlyExceptions.all notExceptionClass = true) (n : String) :
+    deadly (.exception n) = false := by
+  unfold deadly
+  by_cases hm : n ∈ Gen.deadlyExceptions
+  · have := List.all_eq_true.1 hd n hm
+    simp [this]
+  · simp [hm]
+
+/-- nothing the log formatter would re-raise -/
+def NotDeadly {α : Type} : Outcome α → Prop
+  | .ret _ => True
+  | .raise e => deadly e = false
+
+def NotDeadlyOpt : Option Exc → Prop
+  | none => True
+  | some e => deadly e = false
+
+theorem firewallWith_total {α : Type} (hd : Gen.deadlyExceptions.all notExceptionClass = true)
+    (f : Outcome α) (h : Option (Outcome α))
     (hf : OnlyExc f) (hh : ∀ o, h = some o → OnlyExc o) :
     ∃ r, firewallWith "Exception" "Exception" f h = .ret r := by
   unfold firewallWith
   match f, hf with
   | .ret a, _ => exact ⟨_, rfl⟩
   | .raise (.exception n), _ =>
-    simp only [catches_exception, ↓reduceIte]
+    simp only [catches_exception, deadly_exception hd, Bool.false_eq_true, ↓reduceIte]
     match h, hh with
     | none, _ => exact ⟨_, rfl⟩
     | some (.ret a), _ => exact ⟨_, rfl⟩
-    | some (.raise (.exception m)), _ => simp only [catches_exception, ↓reduceIte]; exact ⟨_, rfl⟩
+    | some (.raise (.exception m)), _ =>
+      simp only [catches_exception, deadly_exception hd, Bool.false_eq_true, ↓reduceIte]; exact ⟨_, rfl⟩
     | some (.raise (.base m)), hh => exact absurd (hh _ rfl) (by simp [OnlyExc])
 
 /-- a firewalled method without error handler, seen by its caller, when the body raises only Exceptions -/
-theorem viaFirewall_ret (tk : Gen.firewallCatch = "Exception") (fw : FwMap) (attr : String)
+theorem viaFirewall_ret (tk : Gen.firewallCatch = "Exception") (hd : Gen.deadlyExceptions.all notExceptionClass = true)
+    (fw : FwMap) (attr : String)
     (hfw : isFirewalled fw attr = true) (o : Outcome Unit) (ho : OnlyExc o) :
     viaFirewall fw attr o = .ret () := by
   unfold viaFirewall firewall
@@ -89,7 +112,7 @@ theorem viaFirewall_ret (tk : Gen.firewallCatch = "Exception") (fw : FwMap) (att
   unfold firewallWith
   match o, ho with
   | .ret a, _ => rfl
-  | .raise (.exception n), _ => simp [catches_exception]
+  | .raise (.exception n), _ => simp [catches_exception, deadly_exception hd]
 
 theorem optExc_onlyExc (e : Option Exc) (h : OnlyExcOpt e) : OnlyExc (optExc e) := by
   match e, h with
@@ -171,33 +194,66 @@ theorem isFirewalled_filter (m : FwMap) (cd : List String) (a : String) :
 
 /-! ### feedMsg -/
 
-theorem inFilterLoop_total (tk : TablesOk) (i : Nat) (l : List (Outcome Bool)) :
+theorem protect_notDeadly (what : String) (hreg : regionCatch what = some "") (o : Outcome Unit) (ho : NotDeadly o) :
+    protect what o = .ret () := by
+  unfold protect
+  cases o with
+  | ret a => rfl
+  | raise e =>
+    have : deadly e = false := ho
+    simp [hreg, catches_bare, this]
+
+theorem viaFirewall_notDeadly (tk : TablesOk) (fw : FwMap) (attr : String) (o : Outcome Unit) (ho : NotDeadly o) :
+    NotDeadly (viaFirewall fw attr o) := by
+  unfold viaFirewall
+  split
+  · unfold firewall firewallWith
+    rw [tk.catchF, tk.catchH]
+    cases o with
+    | ret a => trivial
+    | raise e =>
+      have hde : deadly e = false := ho
+      cases hc : catches "Exception" e <;> simp [hc, hde, NotDeadly]
+  · exact ho
+
+theorem optExc_notDeadly (e : Option Exc) (h : NotDeadlyOpt e) : NotDeadly (optExc e) := by
+  cases e with
+  | none => trivial
+  | some e => exact h
+
+theorem inFilterLoop_total (tk : TablesOk) (i : Nat) (l : List (Outcome Bool)) (hl : ∀ o ∈ l, NotDeadly o) :
     ∃ b, (inFilterLoop i l).2 = .ret b := by
   induction l generalizing i with
   | nil => exact ⟨true, rfl⟩
   | cons o rest ih =>
+    have ihr := fun j => ih j (fun o' ho' => hl o' (by simp [ho']))
+    have ho : NotDeadly o := hl o (by simp)
     unfold inFilterLoop
-    simp only
-    split
-    · exact ih (i + 1)
-    · exact ⟨false, rfl⟩
-    · simp only [protect, tk.regInFilter, catches_bare, ↓reduceIte]
-      exact ih (i + 1)
+    simp only [tk.inFilterFw, tk.inFilterH, ↓reduceIte, firewall, tk.catchF, tk.catchH]
+    cases o with
+    | ret b =>
+      cases b
+      · simp only [firewallWith]; exact ⟨false, rfl⟩
+      · simp only [firewallWith]; exact ihr (i + 1)
+    | raise e =>
+      have hde : deadly e = false := ho
+      unfold firewallWith
+      cases hc : catches "Exception" e
+      · simp only [hc, Bool.false_eq_true, ↓reduceIte, protect, tk.regInFilter, catches_bare, hde]
+        exact ihr (i + 1)
+      · simp only [hc, hde, Bool.false_eq_true, ↓reduceIte]
+        exact ihr (i + 1)
 
-theorem callLoop_total (tk : TablesOk) (i : Nat) (l : List (Option Exc)) :
+theorem callLoop_total (tk : TablesOk) (i : Nat) (l : List (Option Exc)) (hl : ∀ o ∈ l, NotDeadlyOpt o) :
     (callLoop i l).2 = .ret () ∧ (callLoop i l).1 = (List.range l.length).map (fun j => Stage.call (i + j)) := by
   induction l generalizing i with
   | nil => exact ⟨rfl, rfl⟩
   | cons o rest ih =>
     unfold callLoop
-    have hp : ∀ x : Outcome Unit, protect "callback" x = .ret () := by
-      intro x
-      unfold protect
-      cases x with
-      | ret a => rfl
-      | raise e => simp [tk.regCallback, catches_bare]
+    have hp : protect "callback" (viaFirewall Gen.ircCallbackFirewalled "__call__" (optExc o)) = .ret () :=
+      protect_notDeadly _ tk.regCallback _ (viaFirewall_notDeadly tk _ _ _ (optExc_notDeadly o (hl o (by simp))))
     simp only [hp]
-    obtain ⟨h1, h2⟩ := ih (i + 1)
+    obtain ⟨h1, h2⟩ := ih (i + 1) (fun o' ho' => hl o' (by simp [ho']))
     refine ⟨h1, ?_⟩
     rw [h2, List.length_cons, List.range_succ_eq_map]
     simp only [List.map_cons, List.map_map, Nat.add_zero, List.cons.injEq, true_and]
@@ -207,15 +263,20 @@ theorem callLoop_total (tk : TablesOk) (i : Nat) (l : List (Option Exc)) :
     congr 1
     omega
 
-/-- `try: state.addMsg(...) except:` never lets anything through (bare except) -/
-theorem protect_addMsg (tk : TablesOk) (o : Outcome Unit) : protect "addMsg" o = .ret () := by
-  unfold protect
-  cases o with
-  | ret a => rfl
-  | raise e => simp [tk.regAddMsg, catches_bare]
+/-- `try: state.addMsg(...) except:` lets nothing through but what the log formatter re-raises -/
+theorem protect_addMsg (tk : TablesOk) (e : Option Exc) (he : NotDeadlyOpt e) :
+    protect "addMsg" (viaFirewall Gen.ircStateFirewalled "addMsg" (optExc e)) = .ret () :=
+  protect_notDeadly _ tk.regAddMsg _ (viaFirewall_notDeadly tk _ _ _ (optExc_notDeadly e he))
+
+/-- nothing raised by `IrcState.addMsg`, the `inFilter`s or the callbacks is one of the classes the log
+formatter re-raises (KeyboardInterrupt, SystemExit) -/
+structure NoDeadly (s : FeedScript) : Prop where
+  addMsg : NotDeadlyOpt s.addMsg
+  inFilters : ∀ o ∈ s.inFilters, NotDeadly o
+  calls : ∀ o ∈ s.calls, NotDeadlyOpt o
 
 /-- the body of `feedMsg` raises only what `pre` or the Irc's own handler raise -/
-theorem feedBody_outcome (tk : TablesOk) (s : FeedScript) :
+theorem feedBody_outcome (tk : TablesOk) (s : FeedScript) (hn : NoDeadly s) :
     (feedBody s).2 =
       (match s.pre with
        | some e => .raise e
@@ -229,34 +290,34 @@ theorem feedBody_outcome (tk : TablesOk) (s : FeedScript) :
     simp only
     cases hown : s.own with
     | none =>
-      simp only [protect_addMsg tk]
-      obtain ⟨b, hb⟩ := inFilterLoop_total tk 0 s.inFilters
+      simp only [protect_addMsg tk _ hn.addMsg]
+      obtain ⟨b, hb⟩ := inFilterLoop_total tk 0 s.inFilters hn.inFilters
       rw [hb]
       cases b
       · rfl
-      · exact (callLoop_total tk 0 s.calls).1
+      · exact (callLoop_total tk 0 s.calls hn.calls).1
     | some oe =>
       cases oe with
       | some e => rfl
       | none =>
-        simp only [protect_addMsg tk]
-        obtain ⟨b, hb⟩ := inFilterLoop_total tk 0 s.inFilters
+        simp only [protect_addMsg tk _ hn.addMsg]
+        obtain ⟨b, hb⟩ := inFilterLoop_total tk 0 s.inFilters hn.inFilters
         rw [hb]
         cases b
         · rfl
-        · exact (callLoop_total tk 0 s.calls).1
+        · exact (callLoop_total tk 0 s.calls hn.calls).1
 
 /-- all exceptions raised before/inside the Irc's own handler are `Exception`s
-(what `state.addMsg`, the `inFilter`s and the callbacks raise does not matter at all) -/
+(what `state.addMsg`, the `inFilter`s and the callbacks raise only matters through `NoDeadly`) -/
 structure ScriptOnlyExc (s : FeedScript) : Prop where
   pre : OnlyExcOpt s.pre
   own : ∀ e, s.own = some e → OnlyExcOpt e
 
-theorem feedMsg_ret (tk : TablesOk) (s : FeedScript) (h : ScriptOnlyExc s) : (feedMsg s).2 = .ret () := by
+theorem feedMsg_ret (tk : TablesOk) (s : FeedScript) (h : ScriptOnlyExc s) (hn : NoDeadly s) : (feedMsg s).2 = .ret () := by
   unfold feedMsg
   simp only
-  apply viaFirewall_ret tk.catchF _ _ tk.feedFw
-  rw [feedBody_outcome tk]
+  apply viaFirewall_ret tk.catchF tk.deadlyOk _ _ tk.feedFw
+  rw [feedBody_outcome tk s hn]
   cases hpre : s.pre with
   | some e =>
     have := h.pre; rw [hpre] at this
@@ -308,7 +369,7 @@ theorem inFilterLoop_pass (tk : TablesOk) (i : Nat) (l : List (Outcome Bool)) (h
       rw [h2, List.length_cons, List.range_succ_eq_map]
       simp [hs]
     | .raise (.exception n), _ =>
-      simp only [firewallWith, catches_exception, ↓reduceIte]
+      simp only [firewallWith, catches_exception, deadly_exception tk.deadlyOk, Bool.false_eq_true, ↓reduceIte]
       refine ⟨h1, ?_⟩
       rw [h2, List.length_cons, List.range_succ_eq_map]
       simp [hs]
@@ -326,7 +387,8 @@ theorem outFilterLoop_pass (tk : TablesOk) (l : List (Outcome Bool)) (h : ∀ o 
     simp only [tk.outFilterFw, tk.outFilterH, ↓reduceIte, firewall, tk.catchF, tk.catchH]
     match o, ho with
     | .ret true, _ => simp only [firewallWith]; exact hr
-    | .raise (.exception n), _ => simp only [firewallWith, catches_exception, ↓reduceIte]; exact hr
+    | .raise (.exception n), _ =>
+      simp only [firewallWith, catches_exception, deadly_exception tk.deadlyOk, Bool.false_eq_true, ↓reduceIte]; exact hr
 
 theorem outFilterLoop_onlyExc (tk : TablesOk) (l : List (Outcome Bool)) (h : ∀ o ∈ l, OnlyExc o) :
     OnlyExc (outFilterLoop l) := by
@@ -340,7 +402,8 @@ theorem outFilterLoop_onlyExc (tk : TablesOk) (l : List (Outcome Bool)) (h : ∀
     match o, ho with
     | .ret true, _ => simp only [firewallWith]; exact hr
     | .ret false, _ => simp only [firewallWith]; trivial
-    | .raise (.exception n), _ => simp only [firewallWith, catches_exception, ↓reduceIte]; exact hr
+    | .raise (.exception n), _ =>
+      simp only [firewallWith, catches_exception, deadly_exception tk.deadlyOk, Bool.false_eq_true, ↓reduceIte]; exact hr
 
 /-! ### the driver: nothing escapes; the driver is never removed -/
 
@@ -348,7 +411,7 @@ theorem envOf_noEscape (tk : TablesOk) (b : IrcBehaviour) (hb : OnlyExceptions b
   refine ⟨?_, ?_, ?_⟩
   · intro h m
     show escName (viaFirewall Gen.ircFirewalled "feedMsg" (optExc (b.feedRaises h m))) = none
-    rw [viaFirewall_ret tk.catchF _ _ tk.feedFw]
+    rw [viaFirewall_ret tk.catchF tk.deadlyOk _ _ tk.feedFw]
     · rfl
     · apply optExc_onlyExc
       cases hf : b.feedRaises h m with
@@ -361,7 +424,7 @@ theorem envOf_noEscape (tk : TablesOk) (b : IrcBehaviour) (hb : OnlyExceptions b
     show (match escName (viaFirewall Gen.ircFirewalled "takeMsg" (optExc (b.takeRaises q))) with
       | some e => some e
       | none => if encodeStrict && q.any b.unencodable then some "UnicodeEncodeError" else none) = none
-    rw [viaFirewall_ret tk.catchF _ _ tk.takeFw]
+    rw [viaFirewall_ret tk.catchF tk.deadlyOk _ _ tk.takeFw]
     · simp [escName, tk.encode]
     · apply optExc_onlyExc
       cases hf : b.takeRaises q with
